@@ -15,6 +15,7 @@ EXPLANATION = (
     "loop is an Err; (R4) in match_expression the non-exhaustive Err exit precedes the arm loop; (R6) every traversal of a Pattern in interpreter/patterns.rs "
     "that recurses into an array/tuple pattern visits all of its sub-pattern fields (prefix, spread, suffix). Not decided: recursion results, broadcast of "
     "scalar functions, option coalescing."
+    " (R5) inside the tail-call loop of execute_user_function only the loop-carried argument vector is read, never the initial call's arguments."
 )
 
 
